@@ -75,6 +75,10 @@ CLAIMS = {
    technique="runtime monitoring: ResolveServer / LookupWellKnown run against a scripted default HTTP transport and an in-process DNS server and are compared with a reference decision table; the allow / deny decision function (hook) is compared with the policy on CIDR edge addresses; real TCP dials through the client dialer and the DNS-cache dialer are observed in the accept logs of loopback listeners",
    text="19 server-name shapes x 16 well-known outcomes x 8 SRV outcomes (2432 resolutions) are compared target-by-target (destination, Host header, TLS name) with the specification's steps, including that the delegated name is resolved without a second well-known lookup; well-known guards (status, 50 KiB with and without Content-Length, m.server) and cache-lifetime precedence are driven directly; 40+ random allow/deny configurations incl. unparsable entries x all range-edge addresses go through the decision and control functions; 72 real dials to 127.0.0.1 / 127.0.0.2 / 127.0.1.1 / ::1 check that a connection arrives at a listener iff the policy permits it.",
    note=TB + "process-global http.DefaultTransport / net.DefaultResolver replaced inside the child process; SRV priority/weight not asserted; a well-known reply delegating to an invalid name and SERVFAIL handling follow the library."),
+ "C14": dict(level="fault_enumeration", design="§4 C14",
+   technique="runtime monitoring with fault enumeration: federation responses assembled from simulated, really signed room histories receive every single-position fault (bad signature, event not allowed by its auth events, auth event removed, event of another room) and sampled multi-fault sets under three event-provider behaviours; the monitor compares what CheckStateResponse / CheckSendJoinResponse / VerifyEventAuthChain / VerifyAuthRulesAtState / LoadAndVerify return with the ground truth of the injected faults and the recursive definitions",
+   text="For each simulated room the fault-free /state-shaped response, every position x fault kind (rooms up to 24 events; sampled above), multi-fault subsets of 2-5 and whole-response faults (non-state event, duplicate key, malformed element, empty) are checked: exactly the events with a bad signature (judged per event ID) or failing the auth check against their available auth events must be missing from the result. send_join: joins built against the resident's state and against a stale view, so that 'allowed by own auth events' and 'allowed by returned state' vary independently. Auth chain: a removed or disallowed link at any depth, provider errors. Auth at state: partial knowledge of the auth events with and without the validation shortcut. LoadAndVerify: one result per input, classified by the first failing check.",
+   note=TB + "the library's Allowed on fresh providers as primitive (C07); simulator events carry every protocol-required signature; abstains on providers returning another event than asked."),
 }
 NOT_YET = "check not built yet (work in progress; see DESIGN.md §4 for the planned monitor)"
 
